@@ -115,6 +115,38 @@ def real_ast(e, v):
     return ({'And': 'and', 'Or': 'or', 'Imp': 'imp', 'Xor': 'xor', 'Iff': 'iff'}[k], real_ast(e, v.f[0]), real_ast(e, v.f[1]))
 
 
+def tree_atoms(t, out):
+    if t[0] == 'atom': out.append(t[1])
+    elif t[0] not in ('top', 'bot'):
+        for x in t[1:]: tree_atoms(x, out)
+
+def tree_eval(t, val):
+    k = t[0]
+    if k == 'top': return True
+    if k == 'bot': return False
+    if k == 'atom': return val(t[1])
+    if k == 'neg': return not tree_eval(t[1], val)
+    a, b = tree_eval(t[1], val), tree_eval(t[2], val)
+    return {'and': a and b, 'or': a or b, 'imp': (not a) or b, 'xor': a != b, 'iff': a == b}[k]
+
+def sem_differs(e, inp, t1, t2):
+    """the property asks for a formula *denoting the Boolean function written in the file*, labels verbatim - not for a particular tree: two trees differ
+    only if some assignment to their atoms (atoms = label slices, equal iff their bytes are equal, decided by the solver) distinguishes them"""
+    if t1 == t2: return False
+    sl = []; tree_atoms(t1, sl); tree_atoms(t2, sl)
+    reps = []; cls = {}
+    for a in sl:
+        if a in cls: continue
+        for i, r in enumerate(reps):
+            if same_slice(e, inp, a, r): cls[a] = i; break
+        else: cls[a] = len(reps); reps.append(a)
+    if len(reps) > 10: return True
+    for asg in range(1 << len(reps)):
+        val = lambda a: bool((asg >> cls[a]) & 1)
+        if tree_eval(t1, val) != tree_eval(t2, val): return True
+    return False
+
+
 def text_of(m, bs): return bytes(mint(m, b) for b in bs).decode('utf-8', 'replace')
 
 
@@ -133,7 +165,7 @@ def formula_job(e, p):
     if r.v == 'Ok':
         rest = r.f[0].f[0]; got = (rest.start, real_ast(e, r.f[0].f[1]))
     if canary and ref is not None: ref = (ref[0], ('neg', ref[1]))
-    if (got is None) != (ref is None) or (got is not None and got != ref):
+    if (got is None) != (ref is None) or (got is not None and (got[0] != ref[0] or sem_differs(e, inp, got[1], ref[1]))):
         m = sat_model(e, True)
         report(e, 'parser-differs', what='formula level: crate %s, documented grammar %s' % (show(got), show(ref)), text=text_of(m, bs), level='formula')
     return {'L': L, 'accepted': got is not None, 'tree': show(got)}
@@ -183,7 +215,7 @@ def file_job(e, p):
         if got_names != names: probs.append('statement list %s, documented %s' % (got_names, names))
         fl = [real_ast(e, x) for x in unguard(st['formulae']).items]
         if canary: fl = fl[::-1] + [('top',)]
-        if fl != forms: probs.append('formulas %s, documented %s' % (fl, forms))
+        if len(fl) != len(forms) or any(sem_differs(e, inp, x, y) for x, y in zip(fl, forms)): probs.append('formulas %s, documented %s' % (fl, forms))
         fn = [(unguard(x).s.start, unguard(x).s.n) for x in unguard(st['formulaname']).items]
         if fn != fnames: probs.append('formula names %s, documented %s' % (fn, fnames))
         d = unguard(st['dict'])
@@ -224,14 +256,61 @@ def dbg(f):
     return '%s(%s,%s)' % (k, dbg(f[1]), dbg(f[2]))
 
 
+def parse_dbg(s_, names):
+    """the crate's Debug rendering of a Formula back into a tree; atoms are raw labels, read against the known statement names (longest first)"""
+    by_len = sorted(set(names), key=len, reverse=True)
+    def rd(i):
+        for kw, tag in (('Const(T)', ('top',)), ('Const(B)', ('bot',))):
+            if s_.startswith(kw, i): return i + len(kw), tag
+        if s_.startswith('not(', i):
+            j, f = rd(i + 4)
+            if s_[j:j + 1] != ')': raise ValueError(i)
+            return j + 1, ('neg', f)
+        for op in BINOPS:
+            if s_.startswith(op + '(', i):
+                try:
+                    j, f = rd(i + len(op) + 1)
+                    if s_[j:j + 1] != ',': raise ValueError(i)
+                    k, g = rd(j + 1)
+                    if s_[k:k + 1] != ')': raise ValueError(i)
+                    return k + 1, (op, f, g)
+                except ValueError: pass
+        for nm in by_len:
+            if s_.startswith(nm, i): return i + len(nm), ('atom', nm)
+        raise ValueError(i)
+    j, t = rd(0)
+    if j != len(s_): raise ValueError(j)
+    return t
+
+def same_function(got_dbg, want_dbg, names):
+    if got_dbg == want_dbg: return True
+    try: t1, t2 = parse_dbg(got_dbg, names), parse_dbg(want_dbg, names)
+    except (ValueError, RecursionError): return False
+    at = []; tree_atoms(t1, at); tree_atoms(t2, at); at = sorted(set(at))
+    if len(at) > 12: return False
+    for asg in range(1 << len(at)):
+        val = lambda a: bool((asg >> at.index(a)) & 1)
+        if tree_eval(t1, val) != tree_eval(t2, val): return False
+    return True
+
+
 def judge(out, text, level):
     exp = ref_concrete(text, level)
     if 'ok' not in out: return ['native run failed / panicked: %s' % str(out)[:200]]
     if out['ok'] != exp['ok']: return ['crate %s %r, documented grammar %s' % ('accepts' if out['ok'] else 'rejects', text, 'accepts' if exp['ok'] else 'rejects')]
     if not out['ok']: return []
     probs = []
+    names = list(exp.get('names', [])) + list(exp.get('formula_names', []))
+    if level == 'formula':
+        try:
+            at = []; tree_atoms(T.Reader(text).formula(0)[1], at); names = at
+        except T.ParseError: pass
     for k in exp:
-        if k != 'ok' and out.get(k) != exp[k]: probs.append('%s: crate %s, documented %s' % (k, out.get(k), exp[k]))
+        if k == 'ok' or out.get(k) == exp[k]: continue
+        # the stored formula has to denote the written function (labels verbatim); its shape is the crate's business
+        if k == 'tree' and same_function(out.get(k) or '', exp[k], names): continue
+        if k == 'formulas' and isinstance(out.get(k), list) and len(out[k]) == len(exp[k]) and all(same_function(x, y, names) for x, y in zip(out[k], exp[k])): continue
+        probs.append('%s: crate %s, documented %s' % (k, out.get(k), exp[k]))
     return probs
 
 
